@@ -459,7 +459,7 @@ Print Assumptions C05_overflow_guards_refuted.
    beyond the old count untouched *)
 Theorem C05_shift_remove_spec :
   forall (items : Z -> Z) (cnt cap_ index count : Z),
-    (0 <= index)%Z -> (0 <= count)%Z -> (index + count <= cnt)%Z -> (cnt <= cap_)%Z -> (cap_ < ShiftLoopProofs.U64 - 1)%Z ->
+    (0 <= index)%Z -> (0 <= count)%Z -> (index + count <= cnt)%Z -> (cnt <= cap_)%Z -> (cap_ < ShiftLoopProofs.U64)%Z ->
     exists items', Gen_ShiftLoops.ShiftRemove items cnt cap_ index count = GenPrelude.Ok (tt, items', (cnt - count)%Z) /\
       (forall j, (j < index)%Z -> items' j = items j) /\
       (forall j, (index <= j < cnt - count)%Z -> items' j = items (j + count)%Z) /\
@@ -470,7 +470,7 @@ Print Assumptions C05_shift_remove_spec.
 (* refinement: on every valid call the generated loops and the hand model (remove_range, C05_remove_refines) compute the same sequence *)
 Theorem C05_shift_remove_refines_model :
   forall (self_move after_move : Z -> option Z) (items : Z -> Z) (n cap_ index count r : nat),
-    index + count <= n -> n <= cap_ -> (Z.of_nat cap_ < ShiftLoopProofs.U64 - 1)%Z ->
+    index + count <= n -> n <= cap_ -> (Z.of_nat cap_ < ShiftLoopProofs.U64)%Z ->
     exists items',
       Gen_ShiftLoops.ShiftRemove items (Z.of_nat n) (Z.of_nat cap_) (Z.of_nat index) (Z.of_nat count) =
         GenPrelude.Ok (tt, items', Z.of_nat (n - count)) /\
@@ -538,7 +538,7 @@ Print Assumptions C05_array_move_construct_and_swap.
    [index, index + count) hold THE VALUE THE ITEM HAD WHEN THE CALL STARTED, the old tail shifted up by count, everything beyond untouched *)
 Theorem C05_shift_insert_spec :
   forall (items : Z -> Z) (cnt cap_ index count it : Z),
-    (0 <= index)%Z -> (index <= cnt)%Z -> (0 <= count)%Z -> (cnt + count <= cap_)%Z -> (cap_ < ShiftLoopProofs.U64 - 1)%Z ->
+    (0 <= index)%Z -> (index <= cnt)%Z -> (0 <= count)%Z -> (cnt + count <= cap_)%Z -> (cap_ < ShiftLoopProofs.U64)%Z ->
     (it < index \/ cnt + count <= it)%Z ->
     exists items', Gen_ShiftLoops.ShiftInsert items cnt cap_ index count it = GenPrelude.Ok (tt, items', (cnt + count)%Z) /\
       (forall j, (j < index)%Z -> items' j = items j) /\
@@ -551,7 +551,7 @@ Print Assumptions C05_shift_insert_spec.
 (* refinement: the generated InsertNogrow and the hand model's insert_nogrow_copies (C05_insert_copies_refines) compute the same sequence *)
 Theorem C05_shift_insert_refines_model :
   forall (self_move after_move : Z -> option Z) (items : Z -> Z) (n index count r : nat) (x : arg Z) (it : Z),
-    index <= n -> count <= r -> (Z.of_nat (n + r) < ShiftLoopProofs.U64 - 1)%Z -> ShiftLoopProofs.item_cell items n index count x it ->
+    index <= n -> count <= r -> (Z.of_nat (n + r) < ShiftLoopProofs.U64)%Z -> ShiftLoopProofs.item_cell items n index count x it ->
     exists items',
       Gen_ShiftLoops.ShiftInsert items (Z.of_nat n) (Z.of_nat (n + r)) (Z.of_nat index) (Z.of_nat count) it =
         GenPrelude.Ok (tt, items', Z.of_nat (n + count)) /\
@@ -566,10 +566,9 @@ Print Assumptions C05_shift_insert_refines_model.
    count inserted cells hold the item's PRE-CALL value, the prefix is untouched, the tail is shifted up by count *)
 Theorem C05_gen_array_insert_spec :
   forall (growOnReserve : bool) (items : Z -> Z) (cnt cap_ base index count it ptr tmp : Z),
-    (0 <= index)%Z -> (index <= cnt)%Z -> (cnt <= cap_)%Z -> (cap_ < InsertGlue.U64 - 1)%Z -> (0 <= count)%Z -> (cnt + count < InsertGlue.U64 - 1)%Z ->
+    (0 <= index)%Z -> (index <= cnt)%Z -> (cnt <= cap_)%Z -> (cap_ < InsertGlue.U64)%Z -> (0 <= count)%Z -> (cnt + count < InsertGlue.U64)%Z ->
     (0 <= base)%Z -> (base + cnt < InsertGlue.U64)%Z -> (0 <= ptr < InsertGlue.U64)%Z -> (InsertGlue.U64 <= tmp)%Z ->
     ((0 <= it < cnt)%Z /\ ptr = (base + it)%Z \/ (InsertGlue.U64 <= it)%Z /\ (ptr < base \/ base + cnt <= ptr)%Z) ->
-    (forall r, Gen_Grow.GrowCapacity growOnReserve cap_ (cnt + count) 0 false = GenPrelude.Ok r -> (r < InsertGlue.U64 - 1)%Z) ->
     exists items' cap', InsertGlue.gen_array_insert growOnReserve items cnt cap_ base index count it ptr tmp =
                           GenPrelude.Ok (items', (cnt + count)%Z, cap') /\
       (cnt + count <= cap')%Z /\
@@ -604,10 +603,9 @@ Print Assumptions C05_facts_shape.
    reading it yields poison): item = any element or an external object, any capacity: the inserted cells hold the PRE-CALL value *)
 Theorem C05_gen_array_insert_from_facts_spec :
   forall (growOnReserve : bool) (items : Z -> Z) (cnt cap_ base index count it ptr tmp : Z),
-    (0 <= index)%Z -> (index <= cnt)%Z -> (cnt <= cap_)%Z -> (cap_ < InsertGlue.U64 - 1)%Z -> (0 <= count)%Z -> (cnt + count < InsertGlue.U64 - 1)%Z ->
+    (0 <= index)%Z -> (index <= cnt)%Z -> (cnt <= cap_)%Z -> (cap_ < InsertGlue.U64)%Z -> (0 <= count)%Z -> (cnt + count < InsertGlue.U64)%Z ->
     (0 <= base)%Z -> (base + cnt < InsertGlue.U64)%Z -> (0 <= ptr < InsertGlue.U64)%Z -> (InsertGlue.U64 <= tmp)%Z ->
     ((0 <= it < cnt)%Z /\ ptr = (base + it)%Z \/ (InsertGlue.U64 <= it)%Z /\ (ptr < base \/ base + cnt <= ptr)%Z) ->
-    (forall r, Gen_Grow.GrowCapacity growOnReserve cap_ (cnt + count) 0 false = GenPrelude.Ok r -> (r < InsertGlue.U64 - 1)%Z) ->
     exists items' cap', FactsProofs.gen_array_insert_f growOnReserve items cnt cap_ base index count it ptr tmp =
                           GenPrelude.Ok (items', (cnt + count)%Z, cap') /\
       (cnt + count <= cap')%Z /\
@@ -630,7 +628,7 @@ Print Assumptions C05_copy_after_grow_is_wrong.
 (* [62f9657] empty ranges execute NO store: the generated Remove / InsertNogrow return the very same cell function for count = 0 *)
 Theorem C05_shift_count0_no_store :
   forall (items : Z -> Z) (cnt cap_ index it : Z),
-    (0 <= index)%Z -> (index <= cnt)%Z -> (cnt <= cap_)%Z -> (cap_ < ShiftLoopProofs.U64 - 1)%Z ->
+    (0 <= index)%Z -> (index <= cnt)%Z -> (cnt <= cap_)%Z -> (cap_ < ShiftLoopProofs.U64)%Z ->
     Gen_ShiftLoops.ShiftRemove items cnt cap_ index 0 = GenPrelude.Ok (tt, items, cnt) /\
     Gen_ShiftLoops.ShiftInsert items cnt cap_ index 0 it = GenPrelude.Ok (tt, items, cnt).
 Proof. exact ShiftLoopProofs.shift_count0_no_store. Qed.
@@ -654,7 +652,7 @@ Print Assumptions C05_shift_same_code.
 (* ... so the loop theorems are claimed for SegmentedArray::Insert / Remove too *)
 Theorem C05_seg_shift_insert_spec :
   forall (items : Z -> Z) (cnt cap_ index count it : Z),
-    (0 <= index)%Z -> (index <= cnt)%Z -> (0 <= count)%Z -> (cnt + count <= cap_)%Z -> (cap_ < ShiftLoopProofs.U64 - 1)%Z ->
+    (0 <= index)%Z -> (index <= cnt)%Z -> (0 <= count)%Z -> (cnt + count <= cap_)%Z -> (cap_ < ShiftLoopProofs.U64)%Z ->
     (it < index \/ cnt + count <= it)%Z ->
     exists items', Gen_ShiftLoopsSeg.ShiftInsert items cnt cap_ index count it = GenPrelude.Ok (tt, items', (cnt + count)%Z) /\
       (forall j, (j < index)%Z -> items' j = items j) /\
@@ -666,7 +664,7 @@ Print Assumptions C05_seg_shift_insert_spec.
 
 Theorem C05_seg_shift_remove_spec :
   forall (items : Z -> Z) (cnt cap_ index count : Z),
-    (0 <= index)%Z -> (0 <= count)%Z -> (index + count <= cnt)%Z -> (cnt <= cap_)%Z -> (cap_ < ShiftLoopProofs.U64 - 1)%Z ->
+    (0 <= index)%Z -> (0 <= count)%Z -> (index + count <= cnt)%Z -> (cnt <= cap_)%Z -> (cap_ < ShiftLoopProofs.U64)%Z ->
     exists items', Gen_ShiftLoopsSeg.ShiftRemove items cnt cap_ index count = GenPrelude.Ok (tt, items', (cnt - count)%Z) /\
       (forall j, (j < index)%Z -> items' j = items j) /\
       (forall j, (index <= j < cnt - count)%Z -> items' j = items (j + count)%Z) /\
